@@ -1125,7 +1125,7 @@ fn main() {
         histories.push(("replay".into(), ops));
     } else {
         histories.extend(scripted());
-        let n = args.cases(20, 170);
+        let n = args.cases(16, 170);
         for i in 0..n {
             let mut r = Rng::for_case(args.seed, i);
             let len = if args.thorough() { r.range(8, 60) } else { r.range(8, 36) } as usize;
